@@ -168,11 +168,39 @@ def run(tier, seed):
     )
 
 
+def real_tf_repeat_case():
+    """Real TensorFlow, real tfrec files: the repeating stream (several batch sizes) must contain every example of the split
+    in every epoch-sized window and be the one-pass sequence repeated when unshuffled."""
+    import numpy as np
+    from .. import fillerlab
+    problems = []
+    with common.scratch_dir("vt19tf_") as tmp:
+        d = fillerlab.make_dataset(tmp / "ds", ft="tfrec", eps=4)
+        with d.filler() as f:
+            for v in range(10):
+                f.write_example(values=fillerlab.example(v), split="train")
+        for bs in (0, 1, 3, 4):
+            ds = d.as_tfdataset("train", shuffle=0, batch_size=bs)  # repeat defaults to True
+            got = []
+            for x in ds.as_numpy_iterator():
+                a = np.asarray(x["a"])
+                got += [int(a[0])] if a.ndim == 1 else [int(r[0]) for r in a]
+                if len(got) >= 25:
+                    break
+            bad = [i for i, v in enumerate(got) if v != i % 10]
+            if len(got) < 25 or bad:
+                problems.append(f"as_tfdataset(tfrec, shuffle=0, batch_size={bs}, repeat default): stream {got[:25]} is not 0..9 repeated")
+    return problems
+
+
 def replay(case):
-    common.import_sedpack()
+    common.import_sedpack(need_tf=(case.get("kind") == "tf"))
     if case.get("kind") == "tf":
+        p = real_tf_repeat_case()
+        if p:
+            return True, "real TensorFlow run: " + str(p[:2])
         p = tf_pipeline_problems()
-        return bool(p), str(p)
+        return bool(p), "recorded pipeline only (the real TF run did not show it): " + str(p)
     try:
         scenario(ConcreteEngine(case["model"]), case["cfg"])
     except CexFound as c:
